@@ -8,7 +8,8 @@ Import ListNotations.
 Close Scope N_scope.
 Open Scope nat_scope.
 
-Inductive op := OAdd (tpl : str) (rid : N) (comp : bool) | OFind (uri : str).
+(* [rok]: the resource's responders are of the kind the router requires *)
+Inductive op := OAdd (tpl : str) (rid : N) (comp rok : bool) | OFind (uri : str).
 
 Section RouterThms.
 Variable cinst : str -> option str -> cres.
@@ -19,10 +20,10 @@ Notation dfs := (dfs cinst cmulti).
 
 (* the code as it is now: strict identifiers, atomic insertion, quoted literals — the three
    flags are regenerated from the staged sources (ConstsC01) *)
-Definition add_cur := add_route cinst cmulti ident_strict insert_atomic.
+Definition add_cur (rok : bool) := add_route_r cinst cmulti ident_strict insert_atomic rok.
 Definition step (r : router) (o : op) : router :=
   match o with
-  | OAdd t i c => fst (router_add cinst cmulti ident_strict insert_atomic r t i c)
+  | OAdd t i c k => fst (router_add cinst cmulti ident_strict insert_atomic r t i c k)
   | OFind u => fst (router_find cinst cmulti literal_src_quoted r u)
   end.
 Definition run_ops (r : router) (ops : list op) : router := fold_left step ops r.
@@ -30,15 +31,15 @@ Definition run_ops (r : router) (ops : list op) : router := fold_left step ops r
 (* the tree a history builds: only the add_route calls matter *)
 Definition tree_step (roots : list node) (o : op) : list node :=
   match o with
-  | OAdd t i _ => fst (add_cur roots t i)
+  | OAdd t i _ k => fst (add_cur k roots t i)
   | OFind _ => roots
   end.
 Definition tree_of (ops : list op) : list node := fold_left tree_step ops [].
 
 Lemma step_roots r o : r_roots (step r o) = tree_step (r_roots r) o.
 Proof.
-  destruct o as [t i c|u]; simpl; [|reflexivity].
-  unfold router_add, add_cur. destruct (add_route _ _ _ _ _ _ _) as [roots' [|e]]; reflexivity.
+  destruct o as [t i c k|u]; simpl; [|reflexivity].
+  unfold router_add, add_cur. destruct (add_route_r _ _ _ _ _ _ _ _) as [roots' [|e]]; reflexivity.
 Qed.
 
 Lemma run_ops_roots ops : forall r, r_roots (run_ops r ops) = fold_left tree_step ops (r_roots r).
@@ -54,13 +55,19 @@ Lemma atomic_now : insert_atomic = true. Proof. reflexivity. Qed.
 Lemma strict_now : ident_strict = true. Proof. reflexivity. Qed.
 Lemma quoted_now : literal_src_quoted = true. Proof. reflexivity. Qed.
 
+Lemma add_route_r_reject strict rok roots tpl rid roots' e :
+  add_route_r cinst cmulti strict insert_atomic rok roots tpl rid = (roots', IErr e) -> roots' = roots.
+Proof.
+  unfold add_route_r. destruct rok; [|intro H; injection H as <- _; reflexivity].
+  rewrite atomic_now. apply add_route_reject_unchanged.
+Qed.
+
 Lemma step_finder_ok r o : finder_ok r -> finder_ok (step r o).
 Proof.
-  intro H. destruct o as [t i c|u]; simpl.
-  - unfold router_add. destruct (add_route _ _ _ _ _ _ _) as [roots' [|e]] eqn:A; simpl.
+  intro H. destruct o as [t i c k|u]; simpl.
+  - unfold router_add. destruct (add_route_r _ _ _ _ _ _ _ _) as [roots' [|e]] eqn:A; simpl.
     + destruct c; [right | left]; reflexivity.
-    + rewrite atomic_now in A. apply add_route_reject_unchanged in A. subst roots'.
-      destruct r; exact H.
+    + apply add_route_r_reject in A. subst roots'. destruct r; exact H.
   - right. simpl. destruct H as [-> | ->]; reflexivity.
 Qed.
 
@@ -82,15 +89,15 @@ Theorem reachable_wf ops : wf (tree_of ops) = true.
 Proof.
   unfold tree_of. assert (H : wf [] = true) by reflexivity. revert H. generalize (@nil node).
   induction ops as [|o ops IH]; intros roots H; simpl; [exact H|]. apply IH.
-  destruct o as [t i c|u]; simpl; [|exact H].
-  unfold add_cur. destruct (add_route _ _ _ _ _ _ _) as [roots' [|e]] eqn:A; simpl.
-  - rewrite strict_now in A. eapply add_route_wf; eauto.
-  - rewrite atomic_now in A. apply add_route_reject_unchanged in A. subst. exact H.
+  destruct o as [t i c k|u]; simpl; [|exact H].
+  unfold add_cur. destruct (add_route_r _ _ _ _ _ _ _ _) as [roots' [|e]] eqn:A; simpl.
+  - unfold add_route_r in A. destruct k; [|discriminate]. rewrite strict_now in A. eapply add_route_wf; eauto.
+  - apply add_route_r_reject in A. subst. exact H.
 Qed.
 
-Theorem reject_unchanged roots tpl rid roots' e :
-  add_cur roots tpl rid = (roots', IErr e) -> roots' = roots.
-Proof. unfold add_cur. rewrite atomic_now. apply add_route_reject_unchanged. Qed.
+Theorem reject_unchanged rok roots tpl rid roots' e :
+  add_cur rok roots tpl rid = (roots', IErr e) -> roots' = roots.
+Proof. unfold add_cur. apply add_route_r_reject. Qed.
 
 (* the generated program compiled without tripping an assert and its source is well-quoted *)
 Definition compiles_ok (roots : list node) : bool :=
@@ -134,12 +141,12 @@ Proof. rewrite find_spec_full. discriminate. Qed.
 
 (* a rejected template changes no later lookup: the history with the rejected call removed
    builds the same tree *)
-Theorem rejected_call_invisible ops1 ops2 tpl rid comp e :
-  snd (add_cur (tree_of ops1) tpl rid) = IErr e ->
-  tree_of (ops1 ++ OAdd tpl rid comp :: ops2) = tree_of (ops1 ++ ops2).
+Theorem rejected_call_invisible ops1 ops2 tpl rid comp rok e :
+  snd (add_cur rok (tree_of ops1) tpl rid) = IErr e ->
+  tree_of (ops1 ++ OAdd tpl rid comp rok :: ops2) = tree_of (ops1 ++ ops2).
 Proof.
   intro H. unfold tree_of. rewrite !fold_left_app. simpl. f_equal.
-  fold (tree_of ops1). destruct (add_cur (tree_of ops1) tpl rid) as [roots' r] eqn:A.
+  fold (tree_of ops1). destruct (add_cur rok (tree_of ops1) tpl rid) as [roots' r] eqn:A.
   simpl in H. subst r. simpl. eapply reject_unchanged; eauto.
 Qed.
 
